@@ -12,7 +12,7 @@ from .. import cfutil, gen
 from ..common import Outcome, open_regions
 from ..model import FSCM, topo_order
 from ..sem import Evaluator, FreeVariable, MultiWorld, Undefined
-from ..y0util import CallTrace, V, build_graph, graph_key, graph_sample
+from ..y0util import CallTrace, V, build_graph, graph_key, graph_sample, one_or_many
 from . import c19
 
 ID = "C09"
@@ -213,9 +213,9 @@ def check(case, ignore_regions=False) -> Outcome:
         tr.observe("transport_district_intervening_on_parents", lambda a, k, r: served.append(r))
         try:
             if mode == "unconditional":
-                res = api.unconditional_cft(event=y0_vars(items), target_domain_graph=graph, domains=cdoms)
+                res = api.unconditional_cft(event=one_or_many(y0_vars(items), len(g["nodes"]) + len(cdoms), many=list), target_domain_graph=graph, domains=cdoms)
             else:
-                res = api.conditional_cft(outcomes=y0_vars(case["outcomes"]), conditions=y0_vars(case["conditions"]), target_domain_graph=graph, domains=cdoms)
+                res = api.conditional_cft(outcomes=one_or_many(y0_vars(case["outcomes"]), len(g["nodes"]) + len(cdoms), many=list), conditions=one_or_many(y0_vars(case["conditions"]), len(g["nodes"]), many=list), target_domain_graph=graph, domains=cdoms)
         except Exception as e:
             msg = repr(e)
             if mode == "conditional" and not ignore_regions:
